@@ -1,5 +1,6 @@
 pub mod ast;
 pub mod choose;
+pub mod limits;
 pub mod model;
 pub mod prog;
 pub mod scale;
